@@ -4,12 +4,17 @@ import (
 	"context"
 	"encoding/base64"
 	"fmt"
+	"net"
 	"net/http/httptest"
 	"sort"
 	"strconv"
 	"strings"
+	"time"
 
 	"google.golang.org/genproto/googleapis/api/annotations"
+	"google.golang.org/grpc"
+	"google.golang.org/grpc/reflection"
+	rpb "google.golang.org/grpc/reflection/grpc_reflection_v1alpha"
 	"google.golang.org/protobuf/proto"
 	"google.golang.org/protobuf/reflect/protoreflect"
 	"google.golang.org/protobuf/types/dynamicpb"
@@ -576,7 +581,74 @@ func runLexerCases(c *Ctx, prop string) {
 
 // c01API: what the property observes — the method and the request message recorded by
 // handlers behind Mux.ServeHTTP, for typed path variables of every scalar kind.
+// c01Drift: one method served by a local handler and by a RegisterConn backend whose request
+// message has drifted (two string fields swapped their numbers). Whichever handler serves a
+// request, the field the template names holds the path text and no other field is set — or the
+// request is refused.
+func c01Drift(c *Ctx) {
+	type seen struct{ name, other string }
+	var got *seen
+	specs := func(tag string) []*MethodSpec {
+		return []*MethodSpec{{Name: "DS", In: "Req", Out: "Reply", Rule: getRule("/api1d/s/{name}/o"),
+			Unary: func(ctx context.Context, in *dynamicpb.Message) (proto.Message, error) {
+				f := in.Descriptor().Fields()
+				got = &seen{in.Get(f.ByName("name")).String(), in.Get(f.ByName("other_name")).String()}
+				return dynamicpb.NewMessage(in.Descriptor().ParentFile().Messages().ByName("Reply")), nil
+			}}}
+	}
+	fxDriftSwap = [2]string{"name", "other_name"}
+	fixtureDeferRegistration = true
+	backFx, err := NewFixture(specs("back"), nil)
+	fixtureDeferRegistration = false
+	fxDriftSwap = [2]string{}
+	if err != nil {
+		c.SpecFail("fixture", "c01 drift backend", err.Error(), "", "C01/fixture", "fixture")
+		return
+	}
+	gs := grpc.NewServer()
+	for _, sd := range backFx.ServiceDescs() {
+		gs.RegisterService(sd, nil)
+	}
+	rpb.RegisterServerReflectionServer(gs, reflection.NewServer(reflection.ServerOptions{Services: gs, DescriptorResolver: backFx.Files}))
+	blis, err := net.Listen("tcp", "127.0.0.1:0")
+	if err != nil {
+		c.Note("c01 drift: no listener: " + err.Error())
+		return
+	}
+	go gs.Serve(blis) //nolint
+	defer gs.Stop()
+	bcc, _ := grpc.NewClient(blis.Addr().String(), grpcInsecure())
+	defer bcc.Close()
+	fx, err := NewFixture(specs("local"), nil)
+	if err != nil || fx.RegErr != nil || fx.RegPanic != nil {
+		c.SpecFail("fixture", "c01 drift", fmt.Sprint(err, fx.RegErr, fx.RegPanic), "", "C01/fixture", "fixture")
+		return
+	}
+	defer fx.Close()
+	ctx, cancel := context.WithTimeout(context.Background(), 5*time.Second)
+	err = fx.Mux.RegisterConn(ctx, bcc)
+	cancel()
+	if err != nil {
+		c.Note("c01 drift: RegisterConn of the drifted backend refused (" + err.Error() + "): nothing to check")
+		return
+	}
+	for i := 0; i < c.N(40, 300); i++ {
+		v := fmt.Sprintf("val-%d", i)
+		got = nil
+		rec, pn := fx.Serve(httptest.NewRequest("GET", "/api1d/s/"+v+"/o", nil))
+		in := "GET /api1d/s/" + v + "/o with a second backend whose Req has name/other_name on swapped numbers"
+		c.Eval("api-drift", in, i < 3)
+		switch {
+		case pn != nil:
+			c.SpecFail("api-drift", in, fmt.Sprint("panic: ", pn), "served or refused", "C01/api/panic", "panic")
+		case got != nil && (got.name != v || got.other != ""):
+			c.SpecFail("api-drift", in, fmt.Sprintf("%d handler saw name=%q other_name=%q", rec.Code, got.name, got.other), fmt.Sprintf("name=%q other_name=\"\" (or a refusal)", v), "C01/api/drift/other-field-set", "routing set a field the template's variable does not name")
+		}
+	}
+}
+
 func c01API(c *Ctx) {
+	c01Drift(c)
 	type rec struct {
 		method string
 		msg    *dynamicpb.Message
@@ -591,6 +663,9 @@ func c01API(c *Ctx) {
 		{"X", getRule("/api1/x/{db}")}, {"N", getRule("/api1/n/{nested.s}/n/{nested.n}")},
 		{"M", getRule("/api1/m/{name=shelves/*/books/*}/tail")}, {"V", getRule("/api1/v/{other_name=**}:go")},
 		{"W", getRule("/api1/w/{i64}/{s32}/{f32}")},
+		// the same prefix under two verbs: the shorter template only for GET, the longer only for PATCH
+		{"G", getRule("/api1/p/{name=shelves/*}")},
+		{"P", &annotations.HttpRule{Pattern: &annotations.HttpRule_Patch{Patch: "/api1/p/{name=shelves/*/books/*}"}, Body: "nested"}},
 	}
 	var ms []*MethodSpec
 	for _, r := range rules {
@@ -709,20 +784,43 @@ func c01API(c *Ctx) {
 		}
 	}
 	// near misses must not reach any handler
+	type miss struct{ verb, path string }
+	var misses []miss
 	for _, p := range []string{"/api1/s", "/api1/s/", "/api1/s/a/b", "/api1/i/x", "/api1/i/1.5", "/api1/i/2147483648", "/api1/u/-1", "/api1/f/yes", "/api1/k/NOPE",
-		"/api1/d/!!!", "/api1/m/shelves/s/books", "/api1/m/shelves/s/books/b/tail/x", "/api1/v/a/b", "/api1/v/a:stop", "/api1/s:x", "/api1:s/x", "/api1/n/ns/n", "/api1/w/1/2"} {
+		"/api1/d/!!!", "/api1/m/shelves/s/books", "/api1/m/shelves/s/books/b/tail/x", "/api1/v/a/b", "/api1/v/a:stop", "/api1/s:x", "/api1:s/x", "/api1/n/ns/n", "/api1/w/1/2",
+		"/api1/p/shelves", "/api1/p/shelves/s1/books", "/api1/p/shelves/s1/books/b1", "/api1/p/shelves/s1/books/b1/x"} {
+		misses = append(misses, miss{"GET", p})
+	}
+	// a path that ends inside the longer template's variable pattern, under the verb only that template carries
+	for _, p := range []string{"/api1/p/shelves/s1", "/api1/p/shelves", "/api1/p/shelves/s1/books", "/api1/p/shelves/s1/books/b1/x", "/api1/p/shelves/s1/books/"} {
+		misses = append(misses, miss{"PATCH", p})
+	}
+	// structural near misses of every dispatched path: empty segments at the end and inside, a segment cut off
+	for _, tc := range cases {
+		if strings.Contains(tc.path, "?") {
+			continue
+		}
+		misses = append(misses, miss{"GET", tc.path + "//"}, miss{"GET", tc.path + "///"})
+		if i := strings.LastIndex(tc.path, "/"); i > len("/api1/") && tc.method != "AV" {
+			misses = append(misses, miss{"GET", tc.path[:i] + "/" + tc.path[i:]}) // "//" before the last segment
+		}
+		misses = append(misses, miss{"GET", "/api1/" + tc.path[len("/api1"):]}) // "//" after the first segment
+	}
+	for _, ms := range misses {
+		p := ms.path
 		got = nil
-		rec, pn := fx.Serve(httptest.NewRequest("GET", p, nil))
+		rec, pn := fx.Serve(httptest.NewRequest(ms.verb, p, strings.NewReader("{}")))
+		p = ms.verb + " " + p
 		c.Eval("api-near-miss", p, true)
 		c.Class("api:near-miss")
 		if pn != nil {
-			c.SpecFail("api-near-miss", "GET "+p, fmt.Sprint("panic: ", pn), "no dispatch", "C01/api/panic", "panic")
+			c.SpecFail("api-near-miss", p, fmt.Sprint("panic: ", pn), "no dispatch", "C01/api/panic", "panic")
 		} else if got != nil || rec.Code == 200 {
 			m := "?"
 			if got != nil {
 				m = got.method + " " + prototextS(got.msg)
 			}
-			c.SpecFail("api-near-miss", "GET "+p, "dispatched: "+m, "no dispatch (4xx)", "C01/api/near-miss-dispatched", "a path no template matches (or whose capture does not convert) reached a handler")
+			c.SpecFail("api-near-miss", p, "dispatched: "+m, "no dispatch (4xx)", "C01/api/near-miss-dispatched", "a path no template matches (or whose capture does not convert) reached a handler")
 		}
 	}
 }
